@@ -96,7 +96,11 @@ pub fn run_prop(ctx: &Ctx, sink: &mut Sink) {
         if rng.chance(1, 2) { toks.push("sorted".into()); }
         if rng.chance(1, 4) { toks.push(format!("mindepth:{}", rng.range(1, 2))); }
         if rng.chance(1, 5) { toks.push(format!("maxdepth:{}", rng.range(1, 3))); }
-        match rng.below(8) {
+        match rng.below(11) {
+            // -prune written before -delete: -delete puts the whole walk in post-order, where -prune changes nothing
+            8 => { toks.extend([name_tok(&pick_utf8(&mut rng, &sc.names)), "prune".into(), "o".into(), "type:f".into()]); }
+            9 => { toks.extend(["type:d".to_string(), "prune".into(), "o".into(), "bang".into(), "type:d".into()]); }
+            10 => { toks.extend(["lp".to_string(), name_tok(&pick_utf8(&mut rng, &sc.names)), "prune".into(), "rp".into(), "comma".into()]); toks.push("true".into()); }
             0 => toks.push(name_tok(&pick_utf8(&mut rng, &sc.names))),
             1 => toks.push("type:f".into()),
             2 => toks.push("type:d".into()),
